@@ -28,6 +28,7 @@ class C02(Check):
         if tier == "quick":
             return [
                 SubSpace("sql/mini/X/d5", w, ("X",), spaces.SQL_MINI, 5),
+                SubSpace("sql/expr/X/d2", w, ("X", "Y"), spaces.EXPR_OPS, 2),
                 data,
                 SubSpace("sql/full/d2", w, spaces.SQL_ROOTS_ALL[1:], spaces.SQL_FULL, 2),
                 SubSpace("sql/full/X/d3", w, ("X",), spaces.SQL_FULL, 3),
@@ -35,6 +36,7 @@ class C02(Check):
             ]
         return [
             SubSpace("sql/mini/X/d6", w, ("X", "Y"), spaces.SQL_MINI, 6),
+            SubSpace("sql/expr/X/d3", w, ("X", "Y"), spaces.EXPR_OPS, 3),
             SubSpace("sqldata/all-tables<=2/d3", dw, droots, spaces.SQL_DATA_OPS, 3),
             SubSpace("sql/full/d3", w, spaces.SQL_ROOTS_ALL[1:], spaces.SQL_FULL, 3),
             SubSpace("sql/full/X/d4", w, ("X",), spaces.SQL_FULL, 4),
